@@ -200,21 +200,21 @@ theorem den_evalLit (ss : SpecSt) (v : PrimVal) : DenSim ss (evalLit v) ([], .li
   subst h1; subst h2
   exact ⟨Trans.refl s, rfl, trivial⟩
 
-theorem den_evalExt (ss : SpecSt) (tag : Nat) (ty : PrimTy) : DenSim ss (evalExt tag ty) ([], .ext tag) := by
+theorem den_evalExt (ss : SpecSt) (tag : Nat) (ty : PrimTy) : DenSim ss (evalExt tag ty) ([.extS tag], .ext tag) := by
   intro s r s' _ hm _
   unfold evalExt at hm
   injection hm with h1 h2
   injection h1 with h1
   subst h1; subst h2
   have hc := curReg_incReg s
-  refine ⟨trans_incPush _ _ [] ?_ ?_ ?_, ?_, ?_⟩
-  · simp [abstractStep, AbsSt.bind_out]
-  · simp [abstractStep, AbsSt.bind_decls]
+  refine ⟨trans_incPush _ _ [.extS tag] ?_ ?_ ?_, ?_, ?_⟩
+  · simp [abstractStep, AbsSt.bind_out, AbsSt.emit_out]
+  · simp [abstractStep, AbsSt.bind_decls, AbsSt.emit_decls]
   · intro q hq
-    simp only [abstractStep]
+    simp only [abstractStep, AbsSt.emit_reg]
     rw [AbsSt.bind_reg, if_neg (by omega)]
   · rw [abs_push, abs_incReg]
-    simp only [abstractStep, AbsSt.res_reg]
+    simp only [abstractStep, AbsSt.res_reg, AbsSt.emit_reg]
     rw [AbsSt.bind_reg, if_pos rfl]
   · show s.incReg.curReg ≤ (s.incReg.push _).curReg
     rw [curReg_push]; exact Nat.le_refl _
